@@ -1,0 +1,78 @@
+//go:build verif
+
+package caco3
+
+// This file is only built with the "verif" tag. It exposes the internal
+// name-resolution and file-set entry points to an external verification
+// harness; it adds no behaviour to the package.
+
+// VerifMakeRelPath is makeRelPath.
+func VerifMakeRelPath(p, f string) string { return makeRelPath(p, f) }
+
+// VerifMakePath is makePath.
+func VerifMakePath(p, f string) string { return makePath(p, f) }
+
+// VerifSrc is env.src for an env whose source directory is srcDir.
+func VerifSrc(srcDir string, ps ...string) string {
+	return (&env{srcDir: srcDir}).src(ps...)
+}
+
+// VerifOut is env.out for an env whose output directory is outDir.
+func VerifOut(outDir string, ps ...string) string {
+	return (&env{outDir: outDir}).out(ps...)
+}
+
+// VerifOutSuffixes returns fileSetOut, dockerSumOut and dockerTarOut of name.
+func VerifOutSuffixes(name string) []string {
+	return []string{fileSetOut(name), dockerSumOut(name), dockerTarOut(name)}
+}
+
+// VerifFileSet runs newFileSet for package path p over the source tree
+// rooted at srcDir and returns the rule name, the file list and the output
+// name.
+func VerifFileSet(srcDir, p string, r *FileSet) (
+	name string, files []string, out string, err error,
+) {
+	fs, err := newFileSet(&env{srcDir: srcDir}, p, r)
+	if err != nil {
+		return "", nil, "", err
+	}
+	return fs.name, fs.files, fs.out, nil
+}
+
+// VerifRuleNames resolves the names a rule of the given kind declares in
+// package p: its own name, its dependencies and its outputs.
+func VerifRuleNames(kind, p string, rule interface{}) (
+	name string, deps, outs []string, err error,
+) {
+	e := &env{}
+	var r buildRule
+	switch kind {
+	case ruleBundle:
+		r = newBundle(e, p, rule.(*Bundle))
+	case ruleDownload:
+		d, err := newDownload(e, p, rule.(*Download))
+		if err != nil {
+			return "", nil, nil, err
+		}
+		r = d
+	case ruleDockerRun:
+		r = newDockerRun(e, p, rule.(*DockerRun))
+	case ruleDockerBuild:
+		b, err := newDockerBuild(e, p, rule.(*DockerBuild))
+		if err != nil {
+			return "", nil, nil, err
+		}
+		r = b
+	case "sub_builds":
+		return "", newSubBuilds(e, p, rule.(*SubBuilds)).Dirs(), nil, nil
+	}
+	if r == nil {
+		return "", nil, nil, nil
+	}
+	m, err := r.meta(e)
+	if err != nil {
+		return "", nil, nil, err
+	}
+	return m.name, m.deps, m.outs, nil
+}
